@@ -30,7 +30,7 @@ MAX_INCONCLUSIVE = 0.4
 
 def strategy(ctx):
     rng = ctx.rng("c02-pool")
-    size = 3 if ctx.tier == "quick" else 40
+    size = 3 if ctx.tier == "quick" else 6  # thorough: many rounds of fresh worker processes, each with its own small pool
     pool = [ssmcase.draw_structure(rng) for _ in range(size)]
     return ssmcase.strategy_from_pool(pool)
 
